@@ -199,11 +199,62 @@ def aliased_params_probe(ctx):
                  float(g), want)
 
 
+def round4_probes(ctx):
+    """(a) backward options never change the forward value, even when they name sampler options (round-4 seed C16/10: the sampler ran
+    with the merged backward configuration);  (b) mh proposes an independent step for every coordinate of x (C16/11: one scalar
+    step shared by all coordinates);  (c) a parameter without grad in front of a differentiable one: each gradient lands in its
+    own slot (C16/12: gradients returned without being re-interleaved)"""
+    from xitorch.integrate import mcquad
+    step = lambda x, *p: x * -0.9 + 0.3
+    fq = lambda x, a: (a * x * x + torch.sin(x)).sum()
+    a = torch.tensor(0.7, dtype=DT, requires_grad=True)
+    for method, kw in (("mhcustom", dict(custom_step=step, nsamples=30, nburnout=2)), ("_dummy1d", dict(nsamples=30))):
+        x0 = torch.tensor([0.4], dtype=DT)
+        logp = (lambda x: -(x * x).sum())
+        try:
+            v0 = mcquad(fq, logp, x0.clone(), fparams=(a,), method=method, **kw)
+            v1 = mcquad(fq, logp, x0.clone(), fparams=(a,), method=method, bck_options={"nsamples": 4, "nburnout": 0}, **kw)
+        except Exception as e:
+            ctx.fail("oracle", "mcquad:%s:bck-options:exception" % method, {}, repr(e)[:200], "the forward value")
+            continue
+        ctx.count(("bck-options-vs-forward", method), nontrivial=True)
+        if not torch.allclose(v0, v1, rtol=1e-13, atol=0):
+            ctx.fail("oracle", "mcquad:%s:forward-uses-backward-options" % method, {"nsamples": 30, "bck_options": {"nsamples": 4, "nburnout": 0}},
+                     [float(v0), float(v1)], "the same value with and without bck_options")
+    # (b)
+    torch.manual_seed(ctx.seed + 5)
+    for dim in (2, 3):
+        v = mcquad(lambda x: ((x[0] - x[-1]) ** 2).reshape(1), lambda x: -(x * x).sum(), torch.zeros(dim, dtype=DT), method="mh", step_size=1.0,
+                   nsamples=200, nburnout=10)
+        ctx.count(("mh-independent-coordinates", dim), nontrivial=True)
+        if not float(v) > 0.05:
+            ctx.fail("oracle", "mcquad:mh:coordinates-move-together", {"x0": "zeros(%d)" % dim, "f": "(x[0] - x[-1])^2", "target": "standard normal"},
+                     float(v), "about 2 (the coordinates are independent); exactly 0 means one shared step")
+    # (c)
+    c_ng = torch.tensor(2.0, dtype=DT)
+    outs = {}
+    for order, f_, prm in (("nograd-first", lambda x, c, a_: (a_ * x * x * c + torch.sin(x)).sum(), lambda a_: (c_ng, a_)),
+                           ("grad-first", lambda x, a_, c: (a_ * x * x * c + torch.sin(x)).sum(), lambda a_: (a_, c_ng))):
+        a_ = torch.tensor(0.7, dtype=DT, requires_grad=True)
+        try:
+            v = mcquad(f_, lambda x: -(x * x).sum(), torch.tensor([0.4], dtype=DT), fparams=prm(a_), method="mhcustom", custom_step=step, nsamples=8, nburnout=1)
+            g1, = torch.autograd.grad(v, a_, create_graph=True, allow_unused=True)
+            g2 = torch.autograd.grad(g1, a_, allow_unused=True)[0] if g1 is not None and g1.requires_grad else None
+            outs[order] = (float(v), None if g1 is None else float(g1), None if g2 is None else float(g2))
+        except Exception as e:
+            ctx.fail("oracle", "mcquad:param-order:%s:exception" % order, {}, repr(e)[:200], "gradients")
+    ctx.count(("param-order",), nontrivial=True)
+    if len(outs) == 2 and (outs["nograd-first"][1] is None or abs(outs["nograd-first"][0] - outs["grad-first"][0]) > 1e-12
+                           or abs(outs["nograd-first"][1] - outs["grad-first"][1]) > 1e-12):
+        ctx.fail("oracle", "mcquad:gradient-in-the-wrong-slot", {"fparams": "(c without grad, a)"}, outs["nograd-first"], outs["grad-first"])
+
+
 def oracle(ctx):
     import xitorch as xt
     from xitorch.integrate import mcquad
     rng = ctx.rng
     inplace_step_probe(ctx)
+    round4_probes(ctx)
     aliased_params_probe(ctx)
     step = lambda x, *p: x * -0.9 + 0.3
     for rep in range(ctx.n(4, 20)):
